@@ -869,7 +869,33 @@ def a7(repo: Repo) -> RuleResult:
                     f.part = "key"
                     res.bad(f)
                     break
-    res.inst(part="key", memoised_functions=n_memo)
+    # hand-written memo tables keyed by a definition's simple name: names are unique within one scope
+    # only (nested definitions, imported files), the value computed from the definition is not
+    n_named = 0
+    for mod in m.mods.values():
+        if not mod.rel.startswith("compiler/bitproto/") or mod.rel.endswith(("/_ast.py", "/parser.py")):
+            continue
+        for fi in list(mod.funcs.values()) + [f for c in mod.classes.values() for f in c.methods.values()]:
+            params = {a.arg for a in fi.node.args.args if a.arg not in ("self", "cls")}
+            for n in ast.walk(fi.node):
+                if not (isinstance(n, ast.Assign) and len(n.targets) == 1 and isinstance(n.targets[0], ast.Subscript)):
+                    continue
+                key = n.targets[0].slice
+                named = [x for x in ast.walk(key) if isinstance(x, ast.Attribute) and x.attr == "name" and isinstance(x.value, ast.Name) and x.value.id in params]
+                if not named:
+                    continue
+                n_named += 1
+                cont = src_of(n.targets[0].value)
+                ktxt = src_of(key)
+                # a memo: the same container is asked for the same key in this function
+                reads = [x for x in ast.walk(fi.node) if (isinstance(x, ast.Compare) and len(x.ops) == 1 and isinstance(x.ops[0], (ast.In, ast.NotIn)) and src_of(x.left) == ktxt and src_of(x.comparators[0]) == cont) or (isinstance(x, ast.Subscript) and x is not n.targets[0] and src_of(x.value) == cont and src_of(x.slice) == ktxt and isinstance(x.ctx, ast.Load)) or (isinstance(x, ast.Call) and isinstance(x.func, ast.Attribute) and x.func.attr == "get" and src_of(x.func.value) == cont and x.args and src_of(x.args[0]) == ktxt)]
+                subj = named[0].value.id
+                from_subject = any(isinstance(x, ast.Name) and x.id == subj for x in ast.walk(n.value))
+                if reads and from_subject:
+                    f = Finding("A7", fi.rel, n.lineno, fi.qual, src_of(n), f"`{cont}` memoises a value computed from `{subj}` under its simple name `{ktxt}`: two definitions of that name (nested in different messages, or in an imported file) get each other's value", witness="message A { enum Kind : uint8 {} }  message B { enum Kind : uint16 {} }: the second Kind is rendered with the first one's type", tag=f"{fi.qual}:name-keyed-memo")
+                    f.part = "key"
+                    res.bad(f)
+    res.inst(part="key", memoised_functions=n_memo, name_keyed_stores=n_named)
     # the condition itself
     cond = m.func("_ast.py", "cache_if_frozen_condition").node
     from .normal import show as _shc
